@@ -209,6 +209,29 @@ pub fn gen_history(r: &mut Rng, c: &GenCfg, max_terms: usize, max_unions: usize)
         ordered_unions.push((base + 4, base + 7));
         fam.push("congruence-chain");
     }
+    // full symmetry with pinned users: a three-slot leaf made fully symmetric by a transposition and a 3-cycle (a group whose
+    // stabiliser chain has two levels), used by several parents that pin its slots through a second child / a slot argument:
+    // all parents over permuted invocations are equal, a parent with a slot argument keeps exactly two symmetries
+    if r.chance(1, 8) && c.max_names >= 3 && c.ns >= 3 && ["h", "k"].iter().all(|o| c.ops.contains(o)) && (c.ops.contains(&"pair") || c.ops.contains(&"app")) {
+        let pop = if c.ops.contains(&"pair") && (!c.ops.contains(&"app") || r.chance(1, 2)) { "pair" } else { "app" };
+        let h3 = |p: [Name; 3]| Tm::leaf("h", p.to_vec());
+        let base = terms.len();
+        terms.extend([h3([0, 1, 2]), h3([1, 0, 2]), h3([1, 2, 0])]);
+        planned_unions.push((base, base + 1));
+        planned_unions.push((base, base + 2));
+        let mut perms: Vec<[Name; 3]> = vec![[0, 1, 2], [1, 0, 2], [0, 2, 1], [2, 1, 0], [1, 2, 0], [2, 0, 1]];
+        r.shuffle(&mut perms);
+        perms.truncate(r.range(3, 6));
+        for p in perms {
+            terms.push(Tm::node(pop, vec![], vec![(vec![], h3(p)), (vec![], Tm::leaf("k", vec![0, 1]))]));
+        }
+        if c.ops.contains(&"idx") {
+            for x in 0..r.below(3) {
+                terms.push(Tm::node("idx", vec![x as Name], vec![(vec![], h3([0, 1, 2]))]));
+            }
+        }
+        fam.push("full-symmetry-pinned-users");
+    }
     while terms.len() < nterms {
         let roll = r.below(13);
         if roll < 5 || terms.is_empty() {
